@@ -23,9 +23,9 @@ ResOK(r, D) ==
          [] r.k = "indset" -> IndSetCardOK(n, E, r.card)
          [] r.k = "flow" -> r.flow = MaxFlow(n, E, r.src, r.sink)
          [] r.k = "mcm" -> r.card = MaxMatching(n, E)
-         \* PageRank: every node's printed rank (x 10^6) within 0.02 + 2% of the fixed-point iteration (the applications stop at a
-         \* residual tolerance of 10^-3 and compute in single precision)
-         [] r.k = "pr" -> LET P == PageRank(n, E, inE, r.norm = 1) IN Len(r.vals) = n /\ \A v \in Nodes(n) : Abs(r.vals[v + 1] - P[v]) <= 20000 + P[v] \div 50
+         \* PageRank: every node's printed rank (x 10^6) within 0.07 + 2% of the fixed-point iteration: the residual variants stop
+         \* when every node's residual is below 10^-3, which leaves at most n * 10^-3 / (1 - a) = 0.06 (n <= 9) of rank undistributed
+         [] r.k = "pr" -> LET P == PageRank(n, E, inE, r.norm = 1) IN Len(r.vals) = n /\ \A v \in Nodes(n) : Abs(r.vals[v + 1] - P[v]) <= 70000 + P[v] \div 50
          \* distributed applications: the complete per-node output of all hosts, in global id order
          [] r.k = "dist" ->
               /\ Len(r.vals) = n
